@@ -1060,6 +1060,26 @@ def r37e_masks_equal_layout(repo, sink):
             if bool(got) != want:
                 worst = worst or (f"masks_compatible, incoming from {'downstream' if down else 'upstream'}, {name}: {bool(got)}, must be {want} "
                                   "(each mask has to be canonicalised with its own grid)")
+    # a side that leaves its grid open (it takes the other side's grid) still has a mask requirement: the masks are then
+    # compared as they are given - a different mask is not "equal"
+    nogrid_bad = None
+    for down in (False, True):
+        for which in ("own grid unset", "incoming grid unset", "both unset"):
+            for ca, cb, raw_eq, want in (("A", "A", True, True), ("A", "B", False, False)):
+                it = _I(repo, raw_eq)
+                g1 = None if which in ("own grid unset", "both unset") else Obj(label="lgrid1")
+                g2 = None if which in ("incoming grid unset", "both unset") else Obj(label="lgrid1")
+                try:
+                    got = it.run(mc, [Sym("lmask", ca, "lgrid1"), Sym("lmask", cb, "lgrid1"), down, g1, g2])
+                except (Raised, Undecided, AnalysisError) as exc:
+                    nogrid_bad = nogrid_bad or f"{which}: {exc}"
+                    continue
+                if bool(got) != want:
+                    nogrid_bad = nogrid_bad or (f"fixed masks, {which}, incoming from {'downstream' if down else 'upstream'}, "
+                                                f"{'the same mask' if want else 'two different masks'}: compatible={bool(got)}, must be {want}")
+    sink.check(nogrid_bad is None, "R37", "masks-without-grid", mc,
+               ok="fixed masks are compared as given when a side has no grid of its own: equal masks accepted, different masks refused",
+               bad=(nogrid_bad or "") + ": a consumer that fixes a mask but takes the producer's grid accepts any mask of the same rank")
     # one mask *object* shared by two infos on differently laid-out (square) grids marks different cells
     shared = Sym("lmask_shared", "S")
     for down in (False, True):
